@@ -5,6 +5,7 @@ package main
 import (
 	"fmt"
 	"go/ast"
+	"go/token"
 	"go/types"
 	"sort"
 	"strings"
@@ -162,11 +163,68 @@ func (c *Ctx) ruleFactExport() {
 				if len(vals) == 0 {
 					return false
 				}
-				for _, v := range vals {
-					d := P.Desc(v)
+				good := func(d string) bool {
 					fromReader := strings.HasPrefix(d, "typeassert(lookup(field(") && strings.Contains(d, "global(analyzer.AnnotationReader)); annotations.PackageAnnotations)")
 					fromRead := strings.HasPrefix(d, "call(annotations.ReadAllAnnotations;")
-					if !fromReader && !fromRead {
+					return fromReader || fromRead
+				}
+				for _, v := range vals {
+					if good(P.Desc(v)) {
+						continue
+					}
+					// the value half of a (value, ok) accessor whose ok half guards the export: the alternatives
+					// that come with a possibly-true ok
+					for {
+						if x, ok := v.(*ssa.ChangeType); ok {
+							v = x.X
+							continue
+						}
+						if x, ok := v.(*ssa.Convert); ok {
+							v = x.X
+							continue
+						}
+						if w := P.throughParams(v); w != v {
+							v = w
+							continue
+						}
+						if u, ok := v.(*ssa.UnOp); ok && u.Op == token.MUL {
+							if a, ok := u.X.(*ssa.Alloc); ok {
+								if cv, _, _ := P.CellStores(a); len(cv) == 1 {
+									v = cv[0]
+									continue
+								}
+							}
+						}
+						break
+					}
+					vex, ok := v.(*ssa.Extract)
+					if !ok || vex.Tuple.Referrers() == nil {
+						return false
+					}
+					var okEx *ssa.Extract
+					for _, rr := range *vex.Tuple.Referrers() {
+						if e2, ok := rr.(*ssa.Extract); ok && e2 != vex {
+							if b, isB := e2.Type().Underlying().(*types.Basic); isB && b.Kind() == types.Bool {
+								okEx = e2
+							}
+						}
+					}
+					if okEx == nil || !flagDominates(okEx, ex.Block()) {
+						return false
+					}
+					n := 0
+					for _, pc := range c.pairCases(vex, okEx, nil, nil, 0) {
+						if cv, isC := constBool(pc.E); isC && !cv {
+							continue
+						}
+						n++
+						var d string
+						P.PinnedAll(pc.Pins, func() { d = P.Desc(pc.S) })
+						if !good(d) {
+							return false
+						}
+					}
+					if n == 0 {
 						return false
 					}
 				}
@@ -196,13 +254,16 @@ func (c *Ctx) ruleFactExport() {
 				}
 				// every path to this return passes the export or takes a dead branch
 				dead := P.BlockCutByOrVia(b, func(l Lit) bool {
-					if nilCheck(l) && l.Pos {
-						return true
-					}
-					if _, t, _ := typeAssertOK(l); t != nil && !l.Pos {
-						return true
-					}
-					return false
+					// also as the negation of a (value, ok) helper's "present and well-typed" conjunction
+					return litImplies(l, func(l Lit) bool {
+						if nilCheck(l) && l.Pos {
+							return true
+						}
+						if _, t, _ := typeAssertOK(l); t != nil && !l.Pos {
+							return true
+						}
+						return false
+					})
 				}, ex.Block())
 				c.check(dead, "FACT-EXPORT/BEFORE-RETURN", a.VarName, P.Pos(r.Pos()), "early return only for an absent/ill-typed reader result (excluded by REQ-RESULT)", "Run can return before the fact is exported")
 			})
@@ -349,4 +410,31 @@ func (c *Ctx) ruleImportScope() {
 		})
 	}
 	c.floor("ImportPackageFact call sites", n, 1)
+}
+
+// flagDominates: blk is reached only when the bool value flag is true (it is dominated by the true branch of a
+// test of flag, or by the false branch of a test of !flag).
+func flagDominates(flag ssa.Value, blk *ssa.BasicBlock) bool {
+	var test func(v ssa.Value, want int) bool
+	test = func(v ssa.Value, want int) bool {
+		refs := v.Referrers()
+		if refs == nil {
+			return false
+		}
+		for _, r := range *refs {
+			switch x := r.(type) {
+			case *ssa.If:
+				b := x.Block()
+				if b.Succs[0] != b.Succs[1] && len(b.Succs[want].Preds) == 1 && dominates(b.Succs[want], blk) {
+					return true
+				}
+			case *ssa.UnOp:
+				if x.Op == token.NOT && test(x, 1-want) {
+					return true
+				}
+			}
+		}
+		return false
+	}
+	return test(flag, 0)
 }
